@@ -34,18 +34,14 @@ def forEach {α : Type} : List α → (α → Step) → Step
 
 def World.proto (w : World) (p : Nat) : Proto := (w.protos.get? p).getD default
 def World.req (w : World) (r : Nat) : Req := (w.reqs.get? r).getD default
-def World.addr (w : World) (a : Nat) : AddrState := (w.addrs.get? a).getD default
-def World.paddr (w : World) (p : Nat) : AddrState := w.addr (w.proto p).addr
+/-- `self.addr` of protocol `p` -/
+def World.paddr (w : World) (p : Nat) : Nat := (w.proto p).addr
 
 def setProto (p : Nat) (f : Proto → Proto) : Step :=
   Step.mod fun w => { w with protos := w.protos.set p (f (w.proto p)) }
 def setReq (r : Nat) (f : Req → Req) : Step :=
   Step.mod fun w => { w with reqs := w.reqs.set r (f (w.req r)) }
-def setAddr (a : Nat) (f : AddrState → AddrState) : Step :=
-  Step.mod fun w => { w with addrs := w.addrs.set a (f (w.addr a)) }
-/-- `self.factory.<container>[self.addr]` of protocol `p` -/
-def setPAddr (p : Nat) (f : AddrState → AddrState) : Step :=
-  Step.read fun w => setAddr (w.proto p).addr f
+def setEnts (f : List Ent → List Ent) : Step := Step.mod fun w => { w with ents := f w.ents }
 
 def emit (o : Obs) : Step := Step.mod fun w => { w with log := w.log ++ [o] }
 
@@ -98,9 +94,7 @@ def write (p : Nat) (bs : Bytes) : Step := emit (.write p bs)
 
 /-- MQTTFactory._idInUse: an unfinished request of any address still carries this identifier -/
 def idInUse (w : World) (i : Nat) : Bool :=
-  w.addrs.any fun (_, a) =>
-    a.winPub.contains i || a.winRel.contains i || a.winSub.contains i || a.winUnsub.contains i ||
-    a.queue.any fun rid => (w.req rid).msgId == i
+  w.ents.any fun e => if e.box = .queue then (w.req e.rid).msgId == i else e.key == i
 
 /-- `(id + 1) % 65536 or 1` -/
 def bumpId (i : Nat) : Nat :=
@@ -123,8 +117,7 @@ def makeId (k : Nat → Step) : Step :=
 /-- MQTTFactory.buildProtocol(addr) followed by makeConnection(transport) -/
 def buildProtocol (a : Nat) : Step :=
   Step.mod fun w =>
-    let addrs := if w.addrs.contains a then w.addrs else w.addrs.set a {}
-    { w with addrs := addrs, protos := w.protos.set w.nextProto { addr := a }, nextProto := w.nextProto + 1 }
+    { w with protos := w.protos.set w.nextProto { addr := a }, nextProto := w.nextProto + 1 }
 
 /-! ### interval.py -/
 
@@ -192,7 +185,7 @@ def retrySubUnsub (p rid : Nat) (dup : Bool) (isSub : Bool) : Step :=
     (if (w.proto p).version = v31 then setReq rid (fun r => { r with encoded := patchDup r.encoded dup }) else Step.ok) ;;
     intervalNext rid fun d =>
       Step.read fun w =>
-        let n := if isSub then (w.paddr p).winSub.length else (w.paddr p).winUnsub.length
+        let n := Ents.count w.ents (w.paddr p) (if isSub then .sub else .unsub)
         callLater (d + (1 / 4 : Rat) * n) (.retry p rid) fun tid =>
           setReq rid (fun r => { r with alarm := some tid }) ;;
           Step.read fun w => write p (w.req rid).encoded
@@ -202,18 +195,18 @@ def refillPublish (p : Nat) (dup : Bool) : Nat → Step
   | 0 => Step.ok
   | fuel + 1 => Step.read fun w =>
     let a := w.paddr p
-    match a.queue with
+    match Ents.items w.ents a .queue with
     | [] => Step.ok
-    | rid :: rest =>
-      if a.winPub.length < (w.proto p).window then
-        setPAddr p (fun a => { a with queue := rest }) ;;
-        (if (w.req rid).msgId ≠ 0 then setPAddr p (fun a => { a with winPub := a.winPub.set (w.req rid).msgId rid })
+    | e :: _ =>
+      if Ents.count w.ents a .pub < (w.proto p).window then
+        setEnts (fun es => Ents.dropFirst es a .queue) ;;
+        (if (w.req e.rid).msgId ≠ 0 then setEnts (fun es => Ents.insert es a .pub (w.req e.rid).msgId e.rid)
          else Step.ok) ;;
-        retryPublish p rid dup ;;
+        retryPublish p e.rid dup ;;
         refillPublish p dup fuel
       else Step.ok
 
-def refill (p : Nat) : Step := Step.read fun w => refillPublish p false (w.paddr p).queue.length
+def refill (p : Nat) : Step := Step.read fun w => refillPublish p false (Ents.count w.ents (w.paddr p) .queue)
 
 /-- MQTTProtocol._deliver -/
 def deliver (p : Nat) (m : RxMsg) : Step :=
@@ -222,12 +215,12 @@ def deliver (p : Nat) (m : RxMsg) : Step :=
 /-- MQTTProtocol._purgeSession(reason) -/
 def purgeWindow (p : Nat) (rel : Bool) (reason : Err) : Step :=
   Step.read fun w =>
-    let win := if rel then (w.paddr p).winRel else (w.paddr p).winPub
-    forEach win fun (k, rid) =>
+    let box : Box := if rel then .rel else .pub
+    forEach (Ents.items w.ents (w.paddr p) box) fun e =>
       Step.read fun w =>
-        if (w.req rid).alarm = none then
-          setPAddr p (fun a => if rel then { a with winRel := a.winRel.erase k } else { a with winPub := a.winPub.erase k }) ;;
-          fireReqDfd (w.req rid).dfd (.fail reason)
+        if (w.req e.rid).alarm = none then
+          setEnts (fun es => Ents.remove es e.addr box e.key) ;;
+          fireReqDfd (w.req e.rid).dfd (.fail reason)
         else Step.ok
 
 def purgeSession (p : Nat) (reason : Err) : Step :=
@@ -236,11 +229,11 @@ def purgeSession (p : Nat) (reason : Err) : Step :=
 /-- MQTTProtocol._syncSession -/
 def syncSession (p : Nat) : Step :=
   Step.read fun w =>
-    (forEach (w.paddr p).winRel fun (_, rid) =>
-      Step.read fun w => if (w.req rid).alarm = none then retryRelease p rid true else Step.ok) ;;
+    (forEach (Ents.items w.ents (w.paddr p) .rel) fun e =>
+      Step.read fun w => if (w.req e.rid).alarm = none then retryRelease p e.rid true else Step.ok) ;;
     Step.read fun w =>
-    (forEach (w.paddr p).winPub fun (_, rid) =>
-      Step.read fun w => if (w.req rid).alarm = none then retryPublish p rid true else Step.ok)
+    (forEach (Ents.items w.ents (w.paddr p) .pub) fun e =>
+      Step.read fun w => if (w.req e.rid).alarm = none then retryPublish p e.rid true else Step.ok)
 
 /-- MQTTProtocol.mqttConnectionMade -/
 def mqttConnectionMade (p : Nat) : Step :=
@@ -334,12 +327,11 @@ def handlePINGRESP (p : Nat) : Step :=
 /-- MQTTProtocol.handleSUBACK / handleUNSUBACK -/
 def handleSubUnsubAck (p : Nat) (isSub : Bool) (msgId : Nat) (v : Val) : Step :=
   Step.read fun w =>
-    let win := if isSub then (w.paddr p).winSub else (w.paddr p).winUnsub
-    match win.get? msgId with
+    let box : Box := if isSub then .sub else .unsub
+    match Ents.lookup w.ents (w.paddr p) box msgId with
     | none => Step.ok
     | some rid =>
-      setPAddr p (fun a => if isSub then { a with winSub := a.winSub.erase msgId }
-                           else { a with winUnsub := a.winUnsub.erase msgId }) ;;
+      setEnts (fun es => Ents.remove es (w.paddr p) box msgId) ;;
       cancelAlarm (w.req rid).alarm ;;
       fireReqDfd (w.req rid).dfd (.ok v)
 
@@ -351,7 +343,7 @@ def handlePUBLISH (p : Nat) (m : RxMsg) : Step :=
     | .ok bs => write p bs ;; deliver p m
     | .error e => Step.raise e
   else if m.qos = 2 then
-    setPAddr p (fun a => { a with winRx := a.winRx.set (m.msgId.getD 0) m }) ;;
+    Step.mod (fun w => { w with rx := Rx.insert w.rx (w.paddr p) (m.msgId.getD 0) m }) ;;
     match encodePUBREC ((m.msgId.getD 0 : Nat) : Int) with
     | .ok bs => write p bs
     | .error e => Step.raise e
@@ -360,9 +352,9 @@ def handlePUBLISH (p : Nat) (m : RxMsg) : Step :=
 /-- MQTTProtocol.handlePUBREL -/
 def handlePUBREL (p : Nat) (msgId : Nat) : Step :=
   Step.read fun w =>
-    (match (w.paddr p).winRx.get? msgId with
+    (match Rx.lookup w.rx (w.paddr p) msgId with
      | none => Step.ok
-     | some m => setPAddr p (fun a => { a with winRx := a.winRx.erase msgId }) ;; deliver p m) ;;
+     | some m => Step.mod (fun w => { w with rx := Rx.remove w.rx (w.paddr p) msgId }) ;; deliver p m) ;;
     match encodePUBCOMP (msgId : Int) with
     | .ok bs => write p bs
     | .error e => Step.raise e
@@ -370,22 +362,22 @@ def handlePUBREL (p : Nat) (msgId : Nat) : Step :=
 /-- MQTTProtocol.handlePUBACK -/
 def handlePUBACK (p : Nat) (msgId : Nat) : Step :=
   Step.read fun w =>
-    match (w.paddr p).winPub.get? msgId with
+    match Ents.lookup w.ents (w.paddr p) .pub msgId with
     | none => Step.ok
     | some rid =>
       cancelAlarm (w.req rid).alarm ;;
       fireReqDfd (w.req rid).dfd (.ok (.int (w.req rid).msgId)) ;;
-      setPAddr p (fun a => { a with winPub := a.winPub.erase msgId }) ;;
+      setEnts (fun es => Ents.remove es (w.paddr p) .pub msgId) ;;
       refill p
 
 /-- MQTTProtocol.handlePUBREC -/
 def handlePUBREC (p : Nat) (msgId : Nat) : Step :=
   Step.read fun w =>
-    match (w.paddr p).winPub.get? msgId with
+    match Ents.lookup w.ents (w.paddr p) .pub msgId with
     | none => Step.ok
     | some rid =>
       cancelAlarm (w.req rid).alarm ;;
-      setPAddr p (fun a => { a with winPub := a.winPub.erase msgId }) ;;
+      setEnts (fun es => Ents.remove es (w.paddr p) .pub msgId) ;;
       match encodePUBREL (msgId : Int) with
       | .error e => Step.raise e
       | .ok bs =>
@@ -397,18 +389,18 @@ def handlePUBREC (p : Nat) (msgId : Nat) : Step :=
                                      alarm := none, initial := (w.proto p).initialT, ivValue := (w.proto p).initialT,
                                      ivK := 1, bandwith := 1, factor := 1, seq := old.seq },
             nextReq := nid + 1 }) ;;
-          setPAddr p (fun a => { a with winRel := a.winRel.set msgId nid }) ;;
+          setEnts (fun es => Ents.insert es (w.paddr p) .rel msgId nid) ;;
           retryRelease p nid false
 
 /-- MQTTProtocol.handlePUBCOMP -/
 def handlePUBCOMP (p : Nat) (msgId : Nat) : Step :=
   Step.read fun w =>
-    match (w.paddr p).winRel.get? msgId with
+    match Ents.lookup w.ents (w.paddr p) .rel msgId with
     | none => Step.ok
     | some rid =>
       cancelAlarm (w.req rid).alarm ;;
       fireReqDfd (w.req rid).dfd (.ok (.int (w.req rid).msgId)) ;;
-      setPAddr p (fun a => { a with winRel := a.winRel.erase (w.req rid).msgId }) ;;
+      setEnts (fun es => Ents.remove es (w.paddr p) .rel (w.req rid).msgId) ;;
       refill p
 
 def abort (p : Nat) : Step := emit (.abort p)
@@ -471,44 +463,44 @@ def dataReceived (p : Nat) (data : Bytes) : Step :=
 
 /-! ### connection loss -/
 
-def cancelWindowAlarms (win : Dict Nat) : Step :=
-  forEach win fun (_, rid) =>
+def cancelWindowAlarms (win : List Ent) : Step :=
+  forEach win fun e =>
     Step.read fun w =>
-      match (w.req rid).alarm with
+      match (w.req e.rid).alarm with
       | none => Step.ok
-      | some tid => cancelTimer tid ;; setReq rid (fun r => { r with alarm := none })
+      | some tid => cancelTimer tid ;; setReq e.rid (fun r => { r with alarm := none })
 
 def failWindow (p : Nat) (isSub : Bool) (reason : Err) : Step :=
   Step.read fun w =>
-    let win := if isSub then (w.paddr p).winSub else (w.paddr p).winUnsub
-    forEach win fun (k, rid) =>
-      setPAddr p (fun a => if isSub then { a with winSub := a.winSub.erase k } else { a with winUnsub := a.winUnsub.erase k }) ;;
-      Step.read fun w => fireReqDfd (w.req rid).dfd (.fail reason)
+    let box : Box := if isSub then .sub else .unsub
+    forEach (Ents.items w.ents (w.paddr p) box) fun e =>
+      setEnts (fun es => Ents.remove es e.addr box e.key) ;;
+      Step.read fun w => fireReqDfd (w.req e.rid).dfd (.fail reason)
 
 /-- the `while len(queuePublishTx)` drain of the clean-session branch -/
 def drainQueue (p : Nat) (reason : Err) : Nat → Step
   | 0 => Step.ok
   | fuel + 1 => Step.read fun w =>
-    match (w.paddr p).queue with
+    match Ents.items w.ents (w.paddr p) .queue with
     | [] => Step.ok
-    | rid :: rest =>
-      setPAddr p (fun a => { a with queue := rest }) ;;
-      (if (w.req rid).msgId ≠ 0 then fireReqDfd (w.req rid).dfd (.fail reason) else Step.ok) ;;
+    | e :: _ =>
+      setEnts (fun es => Ents.dropFirst es (w.paddr p) .queue) ;;
+      (if (w.req e.rid).msgId ≠ 0 then fireReqDfd (w.req e.rid).dfd (.fail reason) else Step.ok) ;;
       drainQueue p reason fuel
 
 /-- MQTTProtocol.doConnectionLost -/
 def doConnectionLost (p : Nat) (reason : Err) : Step :=
   Step.read fun w =>
-    cancelWindowAlarms (w.paddr p).winSub ;;
-    cancelWindowAlarms (w.paddr p).winUnsub ;;
-    cancelWindowAlarms (w.paddr p).winPub ;;
-    cancelWindowAlarms (w.paddr p).winRel ;;
+    cancelWindowAlarms (Ents.items w.ents (w.paddr p) .sub) ;;
+    cancelWindowAlarms (Ents.items w.ents (w.paddr p) .unsub) ;;
+    cancelWindowAlarms (Ents.items w.ents (w.paddr p) .pub) ;;
+    cancelWindowAlarms (Ents.items w.ents (w.paddr p) .rel) ;;
     failWindow p true reason ;;
     failWindow p false reason ;;
     Step.read fun w =>
       if (w.proto p).cleanStart then
         purgeSession p reason ;;
-        Step.read fun w => drainQueue p reason (w.paddr p).queue.length
+        Step.read fun w => drainQueue p reason (Ents.count w.ents (w.paddr p) .queue)
       else Step.ok
 
 /-- MQTTBaseProtocol.connectionLost -/
